@@ -71,7 +71,7 @@ def check_instance(cls, obj, acc, tmp: Path, origin, consts=None):
     if consts:
         acc.count("constant_checks")
         for ck, cv in consts.items():
-            if ck not in jd or jd[ck] != json.loads(json.dumps(cv)):
+            if ck not in jd or json.dumps(jd[ck], sort_keys=True) != json.dumps(cv, sort_keys=True):  # (type-exact: False is not 0)
                 return "constant-missing", f"{name}: constant {ck}={cv!r} absent/changed in output: {jd.get(ck)!r}"
         tam = dict(jd)
         for ck in consts:
@@ -142,14 +142,17 @@ def run_unit(u, acc):
             run_classes(acc, unv, rng, max(6, u["per"] // 4), "installed-versionless", tmp, consts_of=truth)
         else:
             for _ in range(u["families"]):
-                run_classes(acc, G.gen_family(rng, 4), rng, u["per"], "generated", tmp)
+                fam = G.gen_family(rng, 4)
+                # constants are judged against what the GENERATOR declared, not against the class's own bookkeeping
+                run_classes(acc, fam, rng, u["per"], "generated", tmp, consts_of={c: G.DECLARED.get(c, {}) for c in fam})
+                acc.count("declared_falsy_constants", sum(1 for c in fam for v in G.DECLARED.get(c, {}).values() if not v and v is not None))
     finally:
         acc.rmdir(tmp)
 
 
 def inconclusive(cov):
     c = cov["counters"]
-    r = [f"monitor counter {k} is zero" for k in ("roundtrips.bytes", "roundtrips.yaml", "roundtrips.yaml-file", "constant_checks",
+    r = [f"monitor counter {k} is zero" for k in ("roundtrips.bytes", "roundtrips.yaml", "roundtrips.yaml-file", "constant_checks", "declared_falsy_constants",
                                                   "classes.installed", "classes.installed-versionless", "classes.generated") if not c.get(k)]
     acc, rej = c.get("candidates_accepted", 0), c.get("candidates_rejected", 0)
     if acc < 0.2 * (acc + rej):
